@@ -112,8 +112,9 @@ def apply_transform(out, box, s):
 
 
 def path_box(out, d):
-    """bbox of path data using absolute/relative M L H V Z commands only"""
-    toks = re.findall(r"[MmLlHhVvZz]|" + NUM_RE, d)
+    """bbox of path data over its on-curve points (the end point of every segment; control points and the bulge of arcs
+    are not part of the extent as svgdx defines it), all SVG path commands"""
+    toks = re.findall(r"[MmLlHhVvZzCcSsQqTtAa]|" + NUM_RE, d)
     i = 0
     cx, cy = "0.0", "0.0"
     sx, sy = "0.0", "0.0"
@@ -145,6 +146,15 @@ def path_box(out, d):
             a = out.tok(toks[i])
             i += 1
             cy = plus(cy, a) if cmd == "v" else a
+        elif cmd in "CcSsQqTtAa":
+            # number of parameters before the end point: C 4, S 2, Q 2, T 0, A 5
+            skip = {"c": 4, "s": 2, "q": 2, "t": 0, "a": 5}[cmd.lower()]
+            a, b = out.tok(toks[i + skip]), out.tok(toks[i + skip + 1])
+            i += skip + 2
+            if cmd.islower():
+                cx, cy = plus(cx, a), plus(cy, b)
+            else:
+                cx, cy = a, b
         else:
             raise ValueError("path command outside the reference model: " + str(cmd))
         xs.append(cx)
